@@ -346,6 +346,8 @@ def run(P, R, tier):
     for name in ("e_step", "compute_tt_sigma_inv_fnorm", "compute_id_tt_sigma_inv_t"):
         n_dt += _dt.check_function(P, R, IV + name, raw_attrs=("n", "sum_px", "sum_pxx"))
     R.floor("DTYPE.raw sites (i-vector)", n_dt, 4)
+    from ..engines import traps as _traps
+    _traps.check(P, R, ['ivector'], scope='ivector:')
 
 
 EXPLANATION += ' Also: literal coefficient 2 of the Snorm cross term, no division in the E-step sums, the M-step stores T on every call (solved from both accumulators) and sigma under update_sigma; posterior moments are opaque to the sign rules (their sign is data dependent); the kernels may be written out in place or moved into a helper; (MEMO) no memo derived from T / sigma survives their update; (DTYPE.raw).'
